@@ -6,6 +6,8 @@ import re
 from lib.gallina import gstr, glist, gopt, gbool, gpair, gnat
 
 ID = "C19"
+LOG_EXACT = False                # (listing order of the file cassette varies from run to run; the predicate is order-free)
+LOG_LEVEL_INVARIANT = True      # (harness/vp.py: a sample of the cases again with logging at DEBUG; same observables)
 RUN_MODULE = "RunC19"
 DRIVER = "studio_driver.py"
 SHARD = 150
